@@ -12,6 +12,10 @@ CLAIMED = {
             "every (cell, rotation, pbc mask, cutoff, 1-4 atoms on fractional grids, exact/offset) input in the stated alphabet is executed on the implementation and every table entry is compared with a brute-force MIC reference; a coverage statement over that alphabet, nothing about values outside it",
             "trusts numpy, the lattice-sum oracle (box derived from reduced-basis heights), and that geometry.cpp/celllist.cpp compiled against the py::array_t stand-in behave like the pybind11 build (checked bit-for-bit against the installed binary on a 1/16 slice of every run)",
             "DESIGN.md §4 C10"),
+    "C19": ("complete enumeration of the finite table (103 elements x 3 presets) + exhaustive differential over a lattice-gas family",
+            "the preset table is enumerated completely against an independently built table; every configuration of a 2x2x2 two-species lattice gas up to the stated atom count is run through all three consumers with preset vs array",
+            "trusts ase.data as the documented table; differential family is bounded (<=3 atoms quick, <=5 thorough, 3 pbc masks, 2 spacings)",
+            "DESIGN.md §4 C19"),
 }
 NA_REASON = "check not built yet in this round; see DESIGN.md §7 order of work"
 
